@@ -198,6 +198,11 @@ func (fw *FileWriter) WriteEntry(entry Entry) error {
 		return ErrFileClosed
 	}
 
+	// Refuse entries the format cannot represent before they reach the buffer.
+	if err := entry.Validate(); err != nil {
+		return err
+	}
+
 	shouldFlush := fw.buffer.Add(entry)
 	if shouldFlush {
 		return fw.flushLocked()
@@ -213,6 +218,13 @@ func (fw *FileWriter) WriteEntries(entries []Entry) error {
 
 	if fw.closed {
 		return ErrFileClosed
+	}
+
+	// Validate the whole batch first so that a refused batch has no effect.
+	for i := range entries {
+		if err := entries[i].Validate(); err != nil {
+			return err
+		}
 	}
 
 	for _, entry := range entries {
